@@ -80,6 +80,17 @@ let rec dispatch (fn : string) (req : json) : json =
     let mr = to_message (jfield req "m_ref") in
     JObj ["bytes", of_bytes (encode_message m); "ref", of_bytes (ref_benc (value_of_message mr));
           "raw", of_raw (raw_of_message m)]
+  | "invalid_method_text" -> of_bytes (invalid_method_text (jbytes (jfield req "method")))
+  | "lru_run" ->
+    let ops = SL.map (fun o -> match jlist o with
+        | [JStr "set"; k; v] -> LSet (jn k, jn v)
+        | [JStr "get"; k] -> LGet (jn k)
+        | [JStr "pop"; k] -> LPop (jn k)
+        | _ -> raise (Model_error "bad lru op")) (jlist (jfield req "ops")) in
+    of_list (fun (k, v) -> JArr [of_n k; of_n v]) (lru_run (jnat (jfield req "cap")) ops)
+  | "failures_run" ->
+    of_list (fun (k, (a, b)) -> JArr [of_n k; of_option of_n a; of_option of_n b])
+      (failures_run (jnat (jfield req "cap")) (SL.map jn (jlist (jfield req "senders"))))
   | "make_compact_ip" -> of_res of_bytes (make_compact_ip (jbytes (jfield req "address")))
   | "make_compact_address" ->
     of_res of_bytes (make_compact_address (jbytes (jfield req "node_id")) (jbytes (jfield req "address")) (jz (jfield req "port")))
